@@ -409,6 +409,28 @@ func sigOnEveryState(rep *Report, in *Input, cuts []int) {
 			for t := 0; t < 20; t++ {
 				x.m.HL.GetHdr(sipsp.HdrT(t))
 			}
+			// the small accessors: state predicates, flag sets, names of errors and header types
+			_ = x.m.FL.Pending()
+			_ = x.m.PV.From.Pending()
+			_ = x.m.PV.To.Pending()
+			_ = x.m.PV.Callid.Pending()
+			_ = x.m.PV.CSeq.Pending()
+			_ = x.m.PV.CLen.Pending()
+			_ = x.m.PV.Expires.Pending()
+			_ = x.m.PV.PAIs.Empty()
+			for n := 0; n <= x.m.PV.PAIs.N+1; n++ {
+				x.m.PV.PAIs.GetPAI(n)
+			}
+			fl := x.m.HL.PFlags
+			_ = fl.Any(sipsp.HdrFrom, sipsp.HdrTo)
+			_ = fl.AllSet(sipsp.HdrFrom, sipsp.HdrTo, sipsp.HdrCallID)
+			fl.Clear(sipsp.HdrFrom)
+			fl.Reset()
+			_ = e.Error()
+			_ = e.ErrorConv()
+			for t := -1; t < 24; t++ {
+				_ = sipsp.HdrT(t).String()
+			}
 		})
 		rep.OracleEval++
 		if p != "" {
